@@ -24,7 +24,8 @@ func c03Alphabet(reduced bool) []amgr.Op {
 	}
 	if !reduced {
 		a = append(a, amgr.Op{K: "derive", N: 5}, amgr.Op{K: "mark_used"}, amgr.Op{K: "chpass_priv"},
-			amgr.Op{K: "import_priv", N: 1}, amgr.Op{K: "import_script", N: 1}, amgr.Op{K: "next_int", A: 1, N: 1})
+			amgr.Op{K: "import_priv", N: 1}, amgr.Op{K: "import_script", N: 1}, amgr.Op{K: "next_int", A: 1, N: 1},
+			amgr.Op{K: "extend_int", A: 1, N: 1}, amgr.Op{K: "invalidate_cache"})
 	}
 	return a
 }
@@ -99,6 +100,7 @@ func runC03(args []string) {
 	baseUnlocked := []amgr.Op{{K: "unlock"}}
 	baseUsed := []amgr.Op{{K: "unlock"}, {K: "next_ext", N: 2}, {K: "next_int", N: 1}, {K: "restart"}}
 	baseCustom := []amgr.Op{{K: "unlock"}, {K: "new_scope"}}
+	baseAcct1Locked := []amgr.Op{{K: "unlock"}, {K: "new_account"}, {K: "next_ext", N: 1}, {K: "lock"}}
 	var cfgs []cfg
 	d := 3
 	if run.Thorough() {
@@ -111,10 +113,12 @@ func runC03(args []string) {
 		}
 		cfgs = append(cfgs, cfg{zName, waddrmgr.KeyScopeBIP0084, 3, full, [][]amgr.Op{nil, baseUnlocked}})
 		cfgs = append(cfgs, cfg{"A", amgr.CustomScope, 3, full, [][]amgr.Op{baseCustom}})
+		cfgs = append(cfgs, cfg{"A", waddrmgr.KeyScopeBIP0049Plus, 3, full, [][]amgr.Op{baseAcct1Locked}})
 		cfgs = append(cfgs, cfg{"A", waddrmgr.KeyScopeBIP0084, d, reduced, [][]amgr.Op{nil, baseUsed}})
 		cfgs = append(cfgs, cfg{"C", waddrmgr.KeyScopeBIP0049Plus, d, reduced, [][]amgr.Op{nil}})
 	} else {
 		cfgs = append(cfgs, cfg{"A", waddrmgr.KeyScopeBIP0084, 3, full, [][]amgr.Op{nil, baseUsed}})
+		cfgs = append(cfgs, cfg{"A", waddrmgr.KeyScopeBIP0084, 2, full, [][]amgr.Op{baseAcct1Locked}})
 		for _, sc := range []waddrmgr.KeyScope{waddrmgr.KeyScopeBIP0044, waddrmgr.KeyScopeBIP0049Plus, waddrmgr.KeyScopeBIP0086} {
 			cfgs = append(cfgs, cfg{"C", sc, 3, reduced, [][]amgr.Op{nil}})
 		}
